@@ -18,7 +18,8 @@ VERIF_FAIL = re.compile(
     r'possible bit shift underflow/overflow|unreachable\(\) might be reachable|'
     r'possible attempt to .*|cannot show invariant holds.*|'
     r'failed precondition|possible panic.*|panic.*reachable.*|index out of bounds.*|'
-    r'possible out-of-bounds.*|recommendation not met.*)$')
+    r'possible out-of-bounds.*|recommendation not met.*|unable to prove post-condition of closure.*|'
+    r'.*closure.*(requires|ensures).*not.*)$')
 RLIMIT = re.compile(r'(Resource limit|rlimit|resource limit).*exceed|exceeded.*rlimit|timed out', re.I)
 ABORT = re.compile(r'^aborting due to')
 
